@@ -64,7 +64,7 @@ _part = st.sampled_from(sorted(sfref.DATE_PARTS))
 
 
 @st.composite
-def _case(draw, construct):
+def _case(draw, construct, nest=True):
     c = {"c": construct, "form": draw(st.sampled_from(FORMS)), "ctx": draw(st.sampled_from(CONTEXTS))}
     a: dict = {}
     if construct == "regexp_replace":
@@ -115,6 +115,10 @@ def _case(draw, construct):
         a = {"target": draw(st.sampled_from(["INT", "NUMBER(10,2)", "NUMBER(5,0)", "NUMBER(38,10)", "FLOAT", "VARCHAR", "DATE", "TIMESTAMP_NTZ", "TIMESTAMP", "BOOLEAN"])), "src": draw(st.sampled_from(["int", "decimal", "decimal-string", "float", "int-string", "date", "timestamp", "date-string", "bool", "midpoint"])), "n": draw(st.integers(-99999, 99999)), "frac": draw(st.sampled_from(["5", "50", "45", "55", "499", "500", "005", "995", "25", "75"])), "d": draw(_date), "t": draw(_ts), "op": draw(st.sampled_from(["::", "CAST", "TRY_CAST"]))}
     else:
         raise InvalidCase()
+    if construct in ("regexp_replace", "trim") and nest and draw(st.integers(0, 3)) == 0:
+        # the subject is itself the result of a rewritten function
+        ic = draw(st.sampled_from(["regexp_replace", "regexp_replace", "trim", "regexp_substr"]))
+        a["inner"] = {"c": ic, "a": draw(_case(ic, nest=False))["a"]}
     c["a"] = a
     return c
 
@@ -140,8 +144,44 @@ def _lit(v, typ=None):
     return sql_lit(v)
 
 
+def _inner_spec(a):
+    """The optional inner call whose result is the subject of the outer one (a rewritten function nested in a rewritten function)."""
+    inner = a.get("inner")
+    if not inner:
+        return None
+    if not isinstance(inner, dict) or inner.get("c") not in ("regexp_replace", "regexp_substr", "trim") or "a" not in inner or (inner["a"] or {}).get("inner"):
+        raise InvalidCase()
+    ia = inner["a"]
+    if inner["c"] == "regexp_substr" and ia.get("nargs", 2) >= 5 and "e" in (ia.get("params") or "") and (ia.get("nargs", 2) < 6 or ia.get("grp") is None):
+        raise InvalidCase()  # the 'e' parameter without a group number is a listed finding of its own; keep it out of the outer call's verdict
+    sp = {"regexp_replace": b_regexp_replace, "regexp_substr": b_regexp_substr, "trim": b_trim}[inner["c"]](ia)
+    if sp.reject or not sp.supported or sp.rtype != "VARCHAR":
+        raise InvalidCase()
+    return sp
+
+
+def _valid_pattern(p) -> bool:
+    """Only patterns of the generated sub-grammar (the shrinker can turn {1,2} into {,}, which the regex dialects read differently)."""
+    return isinstance(p, str) and "{," not in p and ",}" not in p and "{}" not in p and "()" not in p
+
+
+def _compose(outer: "Spec", inner: "Spec") -> "Spec":
+    """outer's first argument becomes the inner expression; placeholders are renumbered."""
+    k = len(inner.args)
+    shifted = outer.expr
+    for i in range(len(outer.args) - 1, 0, -1):
+        shifted = shifted.replace("{%d}" % i, "{%d}" % (i + k - 1))
+    inner_expr = inner.expr
+    shifted = shifted.replace("{0}", "\x00")
+    expr = shifted.replace("\x00", inner_expr)
+    return Spec(expr, outer.expected, outer.rtype, supported=outer.supported, edge=True, args=inner.args + outer.args[1:], reject=outer.reject)
+
+
 def b_regexp_replace(a):
-    s, p, r = a["s"], a["p"], a["r"]
+    isp = _inner_spec(a)
+    s, p, r = (isp.expected if isp else a["s"]), a["p"], a["r"]
+    if not _valid_pattern(p):
+        raise InvalidCase()
     try:
         re.compile(p)
     except re.error:
@@ -153,11 +193,14 @@ def b_regexp_replace(a):
     exp = sfref.regexp_replace(s, p, r if r is not None else "")
     args = [(_lit(s, "VARCHAR"), True), (sql_str(p), False)] + ([(sql_str(r), False)] if r is not None else [])
     expr = "REGEXP_REPLACE(" + ", ".join("{%d}" % i for i in range(len(args))) + ")"
-    return Spec(expr, exp, "VARCHAR", args=args, edge=s is None or (r is not None and "\\" in r) or r is None)
+    out = Spec(expr, exp, "VARCHAR", args=args, edge=s is None or (r is not None and "\\" in r) or r is None)
+    return _compose(out, isp) if isp else out
 
 
 def b_regexp_substr(a):
     s, p = a["s"], a["p"]
+    if not _valid_pattern(p):
+        raise InvalidCase()
     try:
         rx = re.compile(p)
     except re.error:
@@ -165,6 +208,8 @@ def b_regexp_substr(a):
     if rx.search("") or any(m.group(0) == "" for m in rx.finditer(s)):
         raise InvalidCase()
     nargs = a["nargs"]
+    if not (isinstance(a["pos"], int) and isinstance(a["occ"], int) and a["occ"] >= 1 and isinstance(nargs, int) and 2 <= nargs <= 6):
+        raise InvalidCase()
     pos = a["pos"] if nargs >= 3 else 1
     occ = a["occ"] if nargs >= 4 else 1
     params = (a["params"] or "c") if nargs >= 5 else None
@@ -190,11 +235,15 @@ def b_split(a):
 
 
 def b_trim(a):
-    fn, s, chars = a["fn"], a["s"], a["chars"]
+    isp = _inner_spec(a)
+    fn, s, chars = a["fn"], (isp.expected if isp else a["s"]), a["chars"]
+    if fn not in ("TRIM", "LTRIM", "RTRIM") or chars == "":
+        raise InvalidCase()
     where = {"TRIM": "both", "LTRIM": "left", "RTRIM": "right"}[fn]
     exp = sfref.trim(s, chars if chars is not None else " ", where)
     args = [(_lit(s, "VARCHAR") if not isinstance(s, int) else str(s), True)] + ([(sql_str(chars), False)] if chars is not None else [])
-    return Spec(f"{fn}(" + ", ".join("{%d}" % i for i in range(len(args))) + ")", exp, "VARCHAR", args=args, edge=chars is not None or isinstance(s, int) or s is None)
+    out = Spec(f"{fn}(" + ", ".join("{%d}" % i for i in range(len(args))) + ")", exp, "VARCHAR", args=args, edge=chars is not None or isinstance(s, int) or s is None)
+    return _compose(out, isp) if isp else out
 
 
 def b_to_date(a):
@@ -405,6 +454,8 @@ def _embed_and_check(case, spec: Spec, ctx: Ctx, conn) -> None:
     if context == "insert" and spec.rtype in ("ARRAY",):
         context = "select"
     ctx.cls(f"{construct}:{context}", f"{construct}:{form}")
+    if isinstance(case.get("a"), dict) and case["a"].get("inner"):
+        ctx.cls(f"{construct}:subject-is-{case['a']['inner']['c']}-call")
     stmts: list[str]
     if context == "select":
         stmts = [f"SELECT {expr} AS R{frm}"]
